@@ -125,6 +125,29 @@ def set_patch(ctx):
                   and (op.get_patches_at_corner(c) == set()) == (c not in hexa.FACE_SPEC[side]) for c in range(8)))
 
 
+import itertools
+
+_SEQS = [list(p) for p in itertools.permutations(hexa.SIDES, 2)] + [list(hexa.SIDES), list(reversed(hexa.SIDES)),
+                                                                     ["top", "left", "bottom"], ["front", "top", "back", "bottom"]]
+
+
+@proof("C10", "Operation.set_patch/list-of-sides", cases=[",".join(s) for s in _SEQS],
+       functions=[OP + "set_patch", OP + "patch_names", "classy_blocks.lists.patch_list:PatchList.add"])
+def set_patch_list(ctx):
+    sides = ctx.case.split(",")
+    op = mk_op(ctx)
+    op.set_patch(sides, "P")
+    ctx.prove("exactly-the-listed-sides-named", op.patch_names == {s: "P" for s in sides})
+    pl = PatchList()
+    pl.add(vertices8(), op)
+    quads = [[v.index - 10 for v in sd.vertices] for sd in pl.patches["P"].sides]
+    ctx.prove("one-quad-per-listed-side", len(quads) == len(sides)
+              and all(any(hexa.is_quad_cycle(q, s) for q in quads) for s in sides))
+    # a later assignment on one side replaces only that side
+    op.set_patch(sides[0], "Q")
+    ctx.prove("reassignment-affects-one-side", op.patch_names == {**{s: "P" for s in sides}, sides[0]: "Q"})
+
+
 @proof("C10", "Operation.project_side", cases=[(s, e, p) for s in hexa.SIDES for e in (False, True) for p in (False, True)],
        functions=[OP + "project_side", OP + "project_edge", OP + "_project_update", FACE + "project", FACE + "project_edge",
                   "classy_blocks.lists.face_list:FaceList.add", OP + "edges"])
